@@ -272,3 +272,10 @@ package authenticode
 //@   property C05 C11
 //@   nopanic
 //@   ensures @four_checksum_bytes_appended len(ret0) == len(buf) + 4
+//@
+//@ func readPageHashes
+//@   property C11 C02
+//@   nopanic
+//@   requires sig != nil && sig.Indirect != nil
+//@   ensures @page_hash_function_is_sha1_or_sha256 ret0 == nil && len(sig.PageHashes) > 0 && old(len(sig.PageHashes)) == 0 ==> sig.PageHashFunc == 3 || sig.PageHashFunc == 5
+//@   modifies sig.PageHashFunc, sig.PageHashes
